@@ -52,6 +52,13 @@ func (c *InternalCron) ScheduleEvent(ctx *core.Context, se *ScheduledEvent) erro
 	home := ctx.Location()
 
 	fn := func(t time.Time) error {
+		// Every tick works with a context of its own.  The given
+		// one is the context of the request that added the rule
+		// or loaded the location (and with it every other
+		// scheduled rule of the location): ticks run
+		// concurrently, and processing an event points its
+		// context at locations.
+		ctx := ctx.SubContext()
 		loc := home
 		if loc == nil {
 			loc = ctx.Location()
